@@ -435,3 +435,37 @@ func zxC17Coalesce() {
 	}
 	vrtReach("C17.C")
 }
+
+// C14.Q / C07 — DB.getQueryable: without an explicit range the query window is derived from the
+// database clock and the table's retention: until is the clock rounded up to the resolution and
+// asOf = until − retention (rounded up), so no returned period ended more than one resolution
+// before now − retention and the window reaches the current period (symbolic, unaligned clock;
+// retention a symbolic number of periods).
+//
+//zx:harness prop=C14+C07 id=C14.Q tier=quick shard=res:2
+func zxC14Queryable() {
+	t, _ := zxTable(core.Fields{core.PointsField, zxFieldA})
+	res := time.Second
+	if vrtShape("res", 2) == 1 {
+		res = time.Duration(1 << 30)
+	}
+	t.Resolution = res
+	// an arbitrary instant = a grid instant plus an arbitrary offset inside the period
+	nowT := vrtGridTime("nowBase", res).Add(time.Duration(vrtRange("nowOff", 0, int64(res)-1)))
+	t.db.clock = vtime.NewVirtualClock(nowT)
+	t.db.tables["t"] = t
+	t.RetentionPeriod = time.Duration(vrtRange("retentionPeriods", 1, 1000)) * res
+	q, err := t.db.getQueryable("t", func(fields core.Fields) (core.Fields, error) { return fields, nil }, false)
+	vrtAssert(err == nil, "the table is queryable")
+	if err != nil {
+		return
+	}
+	until, asOf := q.GetUntil(), q.GetAsOf()
+	vrtAssert(vrtAnd(!until.Before(nowT), until.Sub(nowT) < res), "until is the clock rounded up to the resolution")
+	vrtAssert(until.Sub(asOf) == t.RetentionPeriod, "the window spans exactly the retention period")
+	// the oldest period that can be returned ends at asOf + res > now - retention
+	oldestEnd := asOf.Add(res)
+	vrtAssert(oldestEnd.After(nowT.Add(-t.RetentionPeriod)), "no returned period ended at or before now - retention")
+	vrtAssert(!asOf.Add(res).Before(nowT.Add(-t.RetentionPeriod)), "no returned period ended more than one resolution before now - retention")
+	vrtReach("C14.Q")
+}
